@@ -1,4 +1,4 @@
-"""C17 -- remaining class-level refactorings (narrow necessary conditions R17.1-R17.7)."""
+"""C17 -- remaining class-level refactorings (narrow necessary conditions R17.1-R17.8)."""
 from __future__ import annotations
 
 import ast
@@ -20,6 +20,7 @@ EXPLANATION = (
     "list length, scalar type and value.  R17.6: the unindented global-factory template is returned only under a test of the class "
     "line's textual column.  The emitted getter/setter/factory text and the "
     "body transplant are runtime strings and are not decided."
+    " R17.8: the pending setter call is closed at the END of the statement's logical line."
 )
 ASSUMPTIONS = ["R17.1 and R17.4 share their rule bodies with C04 and C03"]
 
@@ -138,3 +139,29 @@ def check(ctx, res) -> None:
                 f"the climb `while {ast.unparse(t)}` only stops when there is no parent left, i.e. at the module scope: the new class is appended at the end "
                 "of the file, and module-level code between the function and the end of the file calls the rewritten function before the class exists (NameError on import)",
                 function=ip.qualname)
+
+    # ---- R17.8 a write `obj.x = <value>` becomes `obj.set_x(<value>)`: the closing parenthesis belongs at the END of the
+    # statement's LOGICAL line (the value may continue over several physical lines)
+    gcm = idx.need_func("rope.refactor.encapsulate_field._FindChangesForModule.get_changed_module")
+    ends, starts_ = set(), set()
+    for x in walk_local(gcm.node):
+        if isinstance(x, ast.Assign) and isinstance(x.value, ast.Call) and call_name(x.value) == "logical_line_in" \
+                and isinstance(x.targets[0], ast.Tuple) and len(x.targets[0].elts) == 2:
+            a, b = x.targets[0].elts
+            if isinstance(a, ast.Name):
+                starts_.add(a.id)
+            if isinstance(b, ast.Name):
+                ends.add(b.id)
+    n8 = 0
+    for x in walk_local(gcm.node):
+        if isinstance(x, ast.Assign) and any(is_self_attr(t, "last_set") for t in x.targets) and isinstance(x.value, ast.Call):
+            n8 += 1
+            arg = x.value.args[0] if x.value.args else None
+            ok = call_name(x.value) == "get_line_end" and (
+                (isinstance(arg, ast.Name) and arg.id in ends) or
+                (isinstance(arg, ast.Subscript) and isinstance(arg.slice, ast.Constant) and arg.slice.value == 1))
+            res.add("R17.8", f"get_changed_module|setter-closes-at-logical-end#{n8}", ok, f"{gcm.unit.rel}:{x.lineno}",
+                    "the pending setter call is closed at the end of the statement's logical line" if ok else
+                    f"the position where the setter call is closed is `{ast.unparse(x.value)}`, not the end of the logical line: for a write whose value "
+                    "continues over several physical lines the `)` lands after the first line and the module no longer parses", function=gcm.qualname)
+    res.floor("R17.8", "places where the pending setter's end is recorded", n8, 1)
